@@ -423,6 +423,8 @@ def _cli_case(item):
     d = Path(tempfile.mkdtemp(prefix="c18cli-", dir=BUILD))
     try:
         data = base_input(big=not case["designOK"])
+        if case.get("incomplete"):
+            data["loads"]["ground_loads"] = []
         if not case["valid"]:
             data["fluid"]["concentration_percent"] = 99
         inp = d / "in.json"
@@ -505,6 +507,11 @@ def run_c18() -> int:
                 k["summaryOK"] = True
             if not k["valid"]:
                 k["designOK"] = True          # the schema-invalid input is the same file either way
+                k["incomplete"] = False
+            if not k["vonly"] and k["convert"] == "IDF":
+                k["incomplete"] = False       # the input file is not on the command line
+            if k["incomplete"]:
+                k["designOK"] = True          # no design is started from an empty load list
             key = tuple(sorted(k.items()))
             if key in seen and (seen[key]["exit"], seen[key]["outputs"], seen[key]["idf"]) != (c["exit"], c["outputs"], c["idf"]):
                 raise MachineryError(f"Cli.tla gives two verdicts for one invocation: {k}")
